@@ -63,6 +63,7 @@ type VerifLayoutResult struct {
 	Before   []VerifLayoutLine // the lines as parsed, before the fixers under test ran
 	Lines    []string          // all raw lines after the fixes, as SaveAutofixChanges would write them
 	Actions  []string          // the AUTOFIX log lines
+	StmtsNil bool              // MkLines.stmts == nil (unbalanced directives)
 	Panicked string
 }
 
@@ -200,6 +201,7 @@ func VerifDirectiveIndent(rawLines []string, depths []int) (res VerifLayoutResul
 		}
 		lines := convertToLogicalLines(NewCurrPath("verif.mk"), sb.String(), true)
 		mklines := NewMkLines(lines, nil, nil)
+		res.StmtsNil = mklines.stmts == nil
 		for i, mkline := range mklines.mklines {
 			res.Before = append(res.Before, verifC15Describe(mkline))
 			if i < len(depths) && depths[i] >= 0 && (mkline.IsDirective() || mkline.IsInclude()) {
